@@ -29,8 +29,8 @@ ASSUMPTIONS = [
 ]
 EXHAUSTIVE = {"quick": False, "thorough": True}
 PLAN = {"quick": dict(depth2=5000, depth3=0), "thorough": dict(depth2=None, depth3=60000)}
-FLOORS = {"quick": {"annotations_built": 5000, "passthrough_probes": 120, "rebuild_fingerprints": 5000, "leaf_kinds": 45, "constructors": 22},
-          "thorough": {"annotations_built": 60000, "passthrough_probes": 120, "rebuild_fingerprints": 60000, "leaf_kinds": 45, "constructors": 22}}
+FLOORS = {"quick": {"annotations_built": 5000, "passthrough_probes": 120, "rebuild_fingerprints": 5000, "leaf_kinds": 45, "constructors": 22, "generic_class_probes": 30},
+          "thorough": {"annotations_built": 60000, "passthrough_probes": 120, "rebuild_fingerprints": 60000, "leaf_kinds": 45, "constructors": 22, "generic_class_probes": 40}}
 
 MOD = "vtot_ns"
 SRC = '''
@@ -183,6 +183,50 @@ def passthrough_probe(sh, ctor, leaf, src, T):
             sh.violation("not-passthrough", annotation=src, direction=direction, got=short(r, 200))
 
 
+def generic_probe(sh, ctor, leaf, src, T, ns):
+    """User generic classes, bare and parameterised, must yield WORKING routines: the field of Box / Box[int] is carried through
+    (pass-through for the free type-variable, converted for Box[int]) in both directions at every constructor position."""
+    if leaf not in ("Box", "Box[int]"):
+        return
+    wire_item, item = ("5", 5) if leaf == "Box[int]" else ("keep-me", "keep-me")
+    w, v = {"item": wire_item}, ns.Box(item)
+    shapes = {"list": ([w], [v]), "typing.List": ([w], [v]), "typing.Sequence": ([w], [v]), "tuplevar": ((w,), (v,)), "typing.Tuple": ((w,), (v,)),
+              "tuplefix": ((w, 1), (v, 1)), "dict": ({"k": w}, {"k": v}), "typing.Dict": ({"k": w}, {"k": v}), "typing.Mapping": ({"k": w}, {"k": v}),
+              "abc.Mapping": ({"k": w}, {"k": v}), "Optional": (w, v), "pipe": (w, v), "deque": ([w], [v]), "dcfield": ({"f": w}, None),
+              "ntfield": ({"f": w}, None), "tdfield": ({"f": w}, {"f": v}), "newtype": (w, v), "alias": (w, v), "Final": (w, v), "<root>": (w, v)}
+    if ctor not in shapes:
+        return
+    win, vin = shapes[ctor]
+    sh.count("generic_class_probes")
+
+    def holds(o, want, depth=0):
+        if isinstance(o, ns.Box):
+            return type(o.item) is type(want) and o.item == want
+        if isinstance(o, dict) and set(o) == {"item"}:
+            return type(o["item"]) is type(want) and o["item"] == want
+        if depth > 4:
+            return False
+        if isinstance(o, dict):
+            return any(holds(x, want, depth + 1) for x in o.values())
+        if isinstance(o, (list, tuple)) or type(o).__name__ == "deque":
+            return any(holds(x, want, depth + 1) for x in o)
+        if hasattr(o, "f"):
+            return holds(o.f, want, depth + 1)
+        return False
+
+    for direction, fn, x in (("unmarshal", lambda x: typelib.unmarshal(T, x), win), ("marshal", lambda x: typelib.marshal(x, t=T), vin)):
+        if x is None:
+            continue
+        try:
+            with quiet():
+                r = fn(x)
+        except Exception as e:  # noqa: BLE001
+            sh.violation("generic-class-routine-raised", annotation=src, direction=direction, exc=type(e).__name__, detail=str(e)[:200])
+            continue
+        if not holds(r, item):
+            sh.violation("generic-class-field-lost", annotation=src, direction=direction, input=short(x, 120), got=short(r, 200))
+
+
 WARMERS = None
 
 
@@ -221,6 +265,7 @@ def check(sh, src, T, steps, leaf=None, ctor=None):
         return
     sh.count("annotations_built")
     passthrough_probe(sh, ctor, leaf, src, T)
+    generic_probe(sh, ctor, leaf, src, T, namespace())
     fp1 = fingerprint(built["unmarshaller"], built["marshaller"])
     try:
         with quiet():
